@@ -39,6 +39,7 @@ type Case struct {
 	Ops    []Op   `json:"ops"`
 	Reject []bool `json:"reject,omitempty"`
 	Early  bool   `json:"early,omitempty"`
+	Clean  bool   `json:"clean,omitempty"` // clean session: a reconnect discards all handshake state on both sides
 	FailAt int64  `json:"fail_at,omitempty"`
 	After  bool   `json:"after,omitempty"`
 }
@@ -57,6 +58,7 @@ type msg struct {
 	qos      int
 	accepted int32
 	rejected int32
+	forgiven bool // its handshake was cut off by the end of a clean-session connection
 }
 
 type runner struct {
@@ -152,7 +154,7 @@ func (r *runner) connect() *verdict {
 			}
 		}
 		cfg := client.NewConfigWithClientID("mem://b", "c10")
-		cfg.CleanSession = false
+		cfg.CleanSession = r.c.Clean
 		cfg.Dialer = r.d
 		cfg.KeepAlive = "0s"
 		cfg.AlwaysAnnounceOnPublish = r.c.Early
@@ -168,7 +170,7 @@ func (r *runner) connect() *verdict {
 			continue
 		}
 		r.cl = cl
-		l, _, err := r.d.Accept(fb.Connack(packet.ConnectionAccepted, r.resumes > 0 || attempt > 0))
+		l, _, err := r.d.Accept(fb.Connack(packet.ConnectionAccepted, !r.c.Clean && (r.resumes > 0 || attempt > 0)))
 		if l == nil {
 			return r.fail("harness/accept", "%v", err)
 		}
@@ -215,6 +217,19 @@ func (r *runner) connect() *verdict {
 // account: the connection l ended; book its operations against the fault plan.
 func (r *runner) account(l *fb.Link) {
 	r.alive = false
+	if r.c.Clean {
+		// a clean session ends with its connection: both sides forget the open handshakes
+		for id := 1; id <= 3; id++ {
+			if r.st[id] != idle && r.cur[id] != nil {
+				r.cur[id].forgiven = true
+			}
+			r.st[id] = idle
+		}
+		for _, u := range r.unacked {
+			u.m.forgiven = true
+		}
+		r.unacked = nil
+	}
 	if r.armed {
 		r.consumed += l.ClientEnd.Ops() - r.base
 		r.base = 0
@@ -312,6 +327,9 @@ func (r *runner) sendPublish(id int, dup bool) bool {
 		r.dupPub++
 	}
 	ok, alive := r.expect(from, fmt.Sprintf("PUBREC id=%d", id), func(g packet.Generic) bool { a, ok := g.(*packet.Pubrec); return ok && a.ID == packet.ID(id) })
+	if !alive && r.c.Clean {
+		return false // the clean session is gone, and with it this handshake (see account)
+	}
 	if ok {
 		r.st[id] = relPending
 	} else if alive && r.pending == nil {
@@ -339,6 +357,9 @@ func (r *runner) sendRel(id int, n int) bool {
 		}
 		return seen == n
 	})
+	if !alive && r.c.Clean && seen == 0 {
+		return false
+	}
 	if seen > 0 {
 		// the handshake is complete: judge the deliveries
 		r.st[id] = idle
@@ -362,6 +383,9 @@ func (r *runner) sendQ1(u *q1, dup bool) bool {
 	from := len(r.link.Broker.Inbox)
 	_ = r.link.Broker.Send(&packet.Publish{ID: u.id, Dup: dup, Message: packet.Message{Topic: "c10/t", QOS: 1, Payload: []byte(u.m.tag)}})
 	ok, alive := r.expect(from, fmt.Sprintf("PUBACK id=%d", u.id), func(g packet.Generic) bool { a, ok := g.(*packet.Puback); return ok && a.ID == u.id })
+	if !alive && r.c.Clean && !ok {
+		return false
+	}
 	if ok {
 		var keep []*q1
 		for _, x := range r.unacked {
@@ -540,6 +564,12 @@ func runCase(c *Case) (*verdict, int64, *runner) {
 		}
 	}
 	for _, m := range r.msgs {
+		if m.forgiven {
+			if m.qos == 2 && !c.Early && atomic.LoadInt32(&m.accepted) > 1 {
+				return r.fail("qos2/not-exactly-once", "QoS 2 message %s was accepted by the application %d times", m.tag, m.accepted), 0, r
+			}
+			continue
+		}
 		if m.qos == 2 && !c.Early && atomic.LoadInt32(&m.accepted) != 1 {
 			return r.fail("qos2/not-exactly-once", "QoS 2 message %s was accepted by the application %d times in total", m.tag, m.accepted), 0, r
 		}
@@ -555,7 +585,7 @@ func runCase(c *Case) (*verdict, int64, *runner) {
 }
 
 func genCase(rt *rapid.T) *Case {
-	c := &Case{Early: rapid.IntRange(0, 4).Draw(rt, "early") == 0}
+	c := &Case{Early: rapid.IntRange(0, 4).Draw(rt, "early") == 0, Clean: rapid.IntRange(0, 2).Draw(rt, "clean") == 0}
 	n := rapid.IntRange(1, 10).Draw(rt, "n")
 	for i := 0; i < n; i++ {
 		k := rapid.SampledFrom([]string{"pub", "pub", "pub", "rel", "rel", "rel", "rel2", "pub1", "pub0", "drop"}).Draw(rt, "kind")
@@ -576,7 +606,7 @@ func genCase(rt *rapid.T) *Case {
 
 func TestC10(t *testing.T) {
 	run := ev.Start("C10", "fault_enumeration")
-	run.Rule("fake-broker scripts of 1-10 steps over {QoS 2 PUBLISH on ids 1-3 (fresh, or the unanswered one again with DUP), PUBREL (also repeated while unanswered, or twice back to back), fresh QoS 1 / QoS 0 messages, drop + resume with the same session}, interpreted against the sender state so that the broker always obeys the MQTT sender rules (after every resume it retransmits PUBLISH dup / PUBREL as a correct broker would); application verdicts (accept / reject) drawn per callback invocation; both callback modes. Every script runs fault free and then once per (operation k, before/after) for EVERY send and receive on the client's connection(s). Oracle = the sender-side handshake model: every PUBLISH answered by PUBREC/PUBACK and every PUBREL by PUBCOMP (a QoS 1 barrier behind the packet makes a missing answer definite), per completed handshake exactly one accepted delivery (default mode), no acknowledgement after a rejected delivery and the connection closed, nothing delivered zero times in the end. non-trivial = a retransmission, a repeated PUBREL, a rejected delivery or a fault while a handshake is open; distinct by (script, fault)")
+	run.Rule("fake-broker scripts of 1-10 steps over {QoS 2 PUBLISH on ids 1-3 (fresh, or the unanswered one again with DUP), PUBREL (also repeated while unanswered, or twice back to back), fresh QoS 1 / QoS 0 messages, drop + resume with the same session}, interpreted against the sender state so that the broker always obeys the MQTT sender rules (after every resume it retransmits PUBLISH dup / PUBREL as a correct broker would); application verdicts (accept / reject) drawn per callback invocation; both callback modes; clean session on and off (with a clean session a reconnect discards the open handshakes on both sides). Every script runs fault free and then once per (operation k, before/after) for EVERY send and receive on the client's connection(s). Oracle = the sender-side handshake model: every PUBLISH answered by PUBREC/PUBACK and every PUBREL by PUBCOMP (a QoS 1 barrier behind the packet makes a missing answer definite), per completed handshake exactly one accepted delivery (default mode), no acknowledgement after a rejected delivery and the connection closed, nothing delivered zero times in the end. non-trivial = a retransmission, a repeated PUBREL, a rejected delivery or a fault while a handshake is open; distinct by (script, fault)")
 	run.Assume("early callback mode (AlwaysAnnounceOnPublish) documents redelivery: only the acknowledgement clauses are judged there")
 	defer run.Finish(t)
 
@@ -611,7 +641,7 @@ func TestC10(t *testing.T) {
 		}
 		for k := int64(1); k <= ops; k++ {
 			for _, after := range []bool{false, true} {
-				fc := &Case{Ops: c.Ops, Reject: c.Reject, Early: c.Early, FailAt: k, After: after}
+				fc := &Case{Ops: c.Ops, Reject: c.Reject, Early: c.Early, Clean: c.Clean, FailAt: k, After: after}
 				faultRuns++
 				if fv := one(fc); fv != nil {
 					report(fv, fc)
@@ -622,6 +652,7 @@ func TestC10(t *testing.T) {
 	}
 	fixed := []*Case{
 		{Ops: []Op{{"pub", 1}, {"rel2", 1}}},
+		{Ops: []Op{{"pub", 1}, {"rel2", 1}, {"pub", 2}, {"drop", 0}, {"pub", 2}, {"rel", 2}}, Clean: true},
 		{Ops: []Op{{"pub", 1}, {"pub", 2}, {"rel", 2}, {"drop", 0}, {"rel", 1}, {"pub", 1}, {"rel", 1}}},
 		{Ops: []Op{{"pub", 1}, {"rel", 1}, {"pub1", 0}, {"pub0", 0}}, Reject: []bool{true, false}},
 		{Ops: []Op{{"pub", 3}, {"drop", 0}, {"pub", 3}, {"rel", 3}}, Early: true},
